@@ -54,7 +54,10 @@ class FileSystemLoader(BaseLoader):
         if self.ext and not template_path.suffix:
             template_path = template_path.with_suffix(self.ext)
 
-        if os.path.pardir in template_path.parts:
+        # Don't build a path that escapes the search path. A name with a root or
+        # drive would replace the search path when joined to it, and ".." climbs
+        # out of it.
+        if template_path.anchor or os.path.pardir in template_path.parts:
             raise TemplateNotFoundError(template_name)
 
         for path in self.search_path:
